@@ -2336,6 +2336,42 @@ def c18_build(ctx):
             continue
         ns = rng.choice([rng.randint(0, 10**10), rng.randint(0, 30) * NS])
         cases.append(mk("tag:ExtInf", "#EXTINF:%s,%s" % (dec9(ns), title), group="duration-title", meta={"domain": True, "ns": ns, "title": title}))
+    # every tag line of generated and abstract playlists (all attribute subsets the playlist generators produce), tag by tag
+    PFX = [("#EXT-X-I-FRAME-STREAM-INF:", "VariantStream"), ("#EXT-X-STREAM-INF:", "VariantStream"), ("#EXT-X-MEDIA:", "ExtXMedia"),
+           ("#EXT-X-SESSION-DATA:", "ExtXSessionData"), ("#EXT-X-SESSION-KEY:", "ExtXSessionKey"), ("#EXT-X-START:", "ExtXStart"),
+           ("#EXT-X-KEY:", "ExtXKey"), ("#EXT-X-MAP:", "ExtXMap"), ("#EXT-X-DATERANGE:", "ExtXDateRange"), ("#EXTINF:", "ExtInf"),
+           ("#EXT-X-BYTERANGE:", "ExtXByteRange"), ("#EXT-X-PROGRAM-DATE-TIME:", "ExtXProgramDateTime")]
+
+    def tag_lines(text):
+        ls = [l.strip() for l in text.split("\n") if l.strip()]
+        k = 0
+        while k < len(ls):
+            l = ls[k]
+            for pfx, name in PFX:
+                if l.startswith(pfx):
+                    if pfx == "#EXT-X-STREAM-INF:":
+                        if k + 1 < len(ls):
+                            yield name, l + "\n" + ls[k + 1]
+                            k += 1
+                    else:
+                        yield name, l
+                    break
+            k += 1
+    seen_tags = set()
+    from . import faithful as FA
+    for i in range(ctx.n(400, 8000)):
+        texts = [G.gen_master(rng, features=ctx.features, fr3=True)[0], G.gen_media(rng, features=ctx.features)[0]]
+        texts.append(FA.render_master(rng, FA.gen_master_ast(rng, {}), plain=True))
+        texts.append(FA.render_media(rng, FA.gen_media_ast(rng, {}), plain=True))
+        for t in texts:
+            for name, line in tag_lines(t if isinstance(t, str) else ""):
+                if (name, line) in seen_tags:
+                    continue
+                m = re.search(r"FRAME-RATE\s*=\s*([^,\s]+)", line)
+                if m and not re.fullmatch(r"\d+(\.\d{1,3})?", m.group(1)):
+                    continue        # the writer prints three decimals: finer frame rates are outside the domain of the round trip (FL3)
+                seen_tags.add((name, line))
+                cases.append(mk("tag:" + name, line, group="tag-of-playlist", meta={"domain": True, "kfv1": True}))
     # composite tags in their canonical domain: valid seeds + generated
     for name in TAG_OPS:
         for t in TAG_SEEDS[name]:
@@ -2393,7 +2429,7 @@ def c18_oracle(ctx, cases, impl, model):
             if should != (r.status == "ok"):
                 fails.append(dict(describe(c.line, a), what="%s accepts exactly the finite%s numbers: bits %s expected %s, got %s" % (c.op, " non-negative" if "UFloat" in c.op else "", c.payload, should, r.status), law="float-domain")); continue
         if r.status != "ok":
-            if c.meta.get("domain") and c.group not in ("float-literal", "float-bits", "value", "tag-generated"):
+            if c.meta.get("domain") and c.group not in ("float-literal", "float-bits", "value", "tag-generated", "tag-of-playlist"):
                 fails.append(dict(describe(c.line, a), what="a value in the domain of %s was rejected" % c.op, law="accept"))
             continue
         rr = r.get("R")
